@@ -16,6 +16,8 @@
     recency_is_last_use_order evicted_is_least_recently_used wf_check_decides_wf
     reload_current_noshadow_partial cache_holds_most_recently_used
     load_after_eviction_parses loader_cache_is_wellformed_lru
+    racing_write_is_linearizable racing_history_is_plain_history reload_current_racing_partial
+    code_takes_mtime_of_opened_file stat_after_open_serves_stale
 -/
 import Genshi.Lemmas.Lru
 import Genshi.Lemmas.LruAbs
@@ -23,6 +25,7 @@ import Genshi.Lemmas.LruTime
 import Genshi.Lemmas.LruCheck
 import Genshi.Lemmas.Loader
 import Genshi.Lemmas.LoaderLru
+import Genshi.Lemmas.LoaderRace
 import Genshi.Gen.Loader
 namespace Genshi.Props.C15
 open Genshi.Lru
@@ -400,6 +403,65 @@ theorem default_loader_bounded (path : List Entry) (ar : Bool) (ops : List HOp) 
       ≤ Genshi.Gen.Loader.defaultMaxCacheSize :=
   (loader_cache_bounded ⟨path, ar, Genshi.Gen.Loader.defaultMaxCacheSize, true⟩ ops).1
 
+/-! ### a file replaced while a load is running (fault sequences: a write at a point inside `load`) -/
+
+/-- The code takes the modification time of the file it opened (probed on `directory()` on every
+    run: the file is replaced right after `open` returned; the up-to-date check handed out says
+    "changed").  The theorems below are about the model with this behaviour; `gdrv` runs the
+    model with the generated constant. -/
+theorem code_takes_mtime_of_opened_file : Genshi.Gen.Loader.mtimeOfOpenedFile = true := rfl
+
+/-- **One racing load is linearizable.**  After every history (racing loads included), a load
+    during which the file it opens is replaced — after the cache check and before `open`, or right
+    after `open` — leaves file system, clock and loader state, and returns the result, of the plain
+    history `linearise`: the load then the write (after `open`), the write then the load (before
+    `open`), or the load alone when no directory file was opened. -/
+theorem racing_write_is_linearizable (cfg : Cfg) (ops : List HOpR) (r : Req) (rw : RaceW) :
+    let w := (hrunR true cfg (World.init cfg.cap) ops).1
+    (hrun cfg w (linearise r rw (firedAt cfg w r rw))).1 = (hstepR true cfg w (.loadRace r rw)).1 ∧
+    (hrun cfg w (linearise r rw (firedAt cfg w r rw))).2.filterMap id =
+      [(hstepR true cfg w (.loadRace r rw)).2].filterMap id :=
+  hstepR_linear (inv_hrunR (inv_init cfg.cap) ops) r rw
+
+/-- **Histories with racing replacements are plain histories**: same final world, same results
+    of the loads in order.  Every theorem of this file about `hrun` therefore speaks about
+    histories in which files are replaced while they are being loaded. -/
+theorem racing_history_is_plain_history (cfg : Cfg) (ops : List HOpR) :
+    ∃ ops' : List HOp,
+      (hrun cfg (World.init cfg.cap) ops').1 = (hrunR true cfg (World.init cfg.cap) ops).1 ∧
+      (hrun cfg (World.init cfg.cap) ops').2.filterMap id =
+        (hrunR true cfg (World.init cfg.cap) ops).2.filterMap id :=
+  hrunR_plain cfg ops _ (inv_init cfg.cap)
+
+/-- … in particular `reload_current_partial`: with automatic reloading, after every history with
+    racing replacements a load returns a template with the current content of the file it came
+    from.  (Partial for the same reason as `reload_current_partial`: finding C15-shadow.) -/
+theorem reload_current_racing_partial (cfg : Cfg) (har : cfg.autoReload = true) (ops : List HOpR) (r : Req)
+    (ls' : LState) (t : Tmpl)
+    (h : load cfg (hrunR true cfg (World.init cfg.cap) ops).1.fs
+          (hrunR true cfg (World.init cfg.cap) ops).1.ls r = some (ls', .ok t)) :
+    ∃ f, (hrunR true cfg (World.init cfg.cap) ops).1.fs t.loc = some f ∧ f.content = t.content :=
+  load_current (inv_hrunR (inv_init cfg.cap) ops) har h
+
+def raceCfg : Cfg := { path := [.dir 0 false], autoReload := true, cap := 2 }
+def raceOps : List HOpR :=
+  [.plain (.write ⟨0, false, 0⟩ 100 false), .loadRace { base := 0 } ⟨false, 101, false⟩]
+
+/-- Why the modification time must be the opened file's (the code before `fix: directory() takes
+    the modification time from the file it opened` asked the *path* after `open`): in that model
+    (`fstat = false`) the history "write v100; load while the file is replaced by v101 right after
+    `open`" leaves v100 cached with the time of v101, and the next load serves v100 although the
+    file holds v101 — for good.  With the opened file's time the same history reloads. -/
+theorem stat_after_open_serves_stale :
+    (∃ ls' t, load raceCfg (hrunR false raceCfg (World.init 2) raceOps).1.fs
+        (hrunR false raceCfg (World.init 2) raceOps).1.ls { base := 0 } = some (ls', .ok t) ∧
+      t.content = 100 ∧
+      ((hrunR false raceCfg (World.init 2) raceOps).1.fs t.loc).map (·.content) = some 101) ∧
+    (∃ ls' t, load raceCfg (hrunR true raceCfg (World.init 2) raceOps).1.fs
+        (hrunR true raceCfg (World.init 2) raceOps).1.ls { base := 0 } = some (ls', .ok t) ∧
+      t.content = 101) := by
+  refine ⟨⟨_, _, rfl, rfl, rfl⟩, ⟨_, _, rfl, rfl⟩⟩
+
 end Loader
 
 /-! ### non-vacuity -/
@@ -411,6 +473,19 @@ example : (hrun ⟨[.dir 0 false], true, 2, true⟩ (World.init 2)
      .load { base := 0 }, .write ⟨0, false, 0⟩ 101 true, .load { base := 0 }]).2 =
     [none, some (.ok ⟨0, ⟨0, false, 0⟩, 100, 0, 0, false⟩), some (.ok ⟨0, ⟨0, false, 0⟩, 100, 0, 0, false⟩),
      none, some (.ok ⟨1, ⟨0, false, 0⟩, 100, 0, 0, false⟩), none, some (.err .syntaxError)] := by
+  decide
+end
+
+section
+open Genshi.Loader
+-- racing replacements that land: after `open` (the old content is returned, the next load
+-- reloads), before `open` (the new content is returned)
+example : (hrunR true ⟨[.dir 0 false], true, 2, true⟩ (World.init 2)
+    [.plain (.write ⟨0, false, 0⟩ 100 false), .loadRace { base := 0 } ⟨false, 101, false⟩,
+     .plain (.load { base := 0 }), .loadRace { base := 0 } ⟨true, 102, false⟩,
+     .plain (.touch ⟨0, false, 0⟩), .loadRace { base := 0 } ⟨true, 103, false⟩]).2.map
+      (fun o => o.map fun r => match r with | .ok t => t.content | .err _ => 0) =
+    [none, some 100, some 101, some 101, none, some 103] := by
   decide
 end
 
